@@ -27,12 +27,16 @@ import time
 
 VERIF = os.path.dirname(os.path.abspath(__file__))
 REPO = os.environ.get("VERIF_REPO", "/repo")
-HARNESS = os.path.join(VERIF, "harness")
+HARNESS_SRC = os.path.join(VERIF, "harness")
 WORK = os.path.join(VERIF, ".work")
+ALT = "" if REPO == "/repo" else "-" + hashlib.sha256(REPO.encode()).hexdigest()[:8]
+# VERIF_REPO=<worktree> (used to evaluate seeded changes without touching /repo): a copy of the
+# harness crate whose path dependency points at that tree, with its own build slots
+HARNESS = HARNESS_SRC if not ALT else os.path.join(WORK, "harness" + ALT)
 CACHE = os.path.join(WORK, "cache")
-LOGS = os.path.join(WORK, "logs")
+LOGS = os.path.join(WORK, "logs" + ("" if os.environ.get("VERIF_REPO", "/repo") == "/repo" else "-alt"))
 REPLAYS = os.path.join(VERIF, "replays")
-EVID = os.path.join(VERIF, "evidence")
+EVID = os.path.join(VERIF, "evidence") if os.environ.get("VERIF_REPO", "/repo") == "/repo" else os.path.join(VERIF, ".work", "evidence-alt")
 GUARD = "ebml_iterable_verif"
 
 sys.path.insert(0, VERIF)
@@ -82,7 +86,17 @@ def repo_hash():
 
 
 def harness_hash():
-    return sha_files(tree_files(HARNESS, ["src", "Cargo.toml", "Cargo.lock"]) + [os.path.join(VERIF, "known_findings.json")])
+    return sha_files(tree_files(HARNESS_SRC, ["src", "Cargo.toml", "Cargo.lock"]) + [os.path.join(VERIF, "known_findings.json")])
+
+
+def prepare_alt_harness():
+    if not ALT:
+        return
+    shutil.rmtree(HARNESS, ignore_errors=True)
+    shutil.copytree(HARNESS_SRC, HARNESS, ignore=shutil.ignore_patterns("target"))
+    p = os.path.join(HARNESS, "Cargo.toml")
+    t = open(p).read().replace('path = "/repo"', 'path = "%s"' % REPO)
+    open(p, "w").write(t)
 
 
 def load_findings():
@@ -226,7 +240,7 @@ def run_harness(h, ctx, playback=False):
     slot = ctx["slots"].acquire()
     t0 = time.time()
     try:
-        tdir = os.path.join(WORK, "slot-%d" % slot)
+        tdir = os.path.join(WORK, "slot%s-%d" % (ALT, slot))
         logp = os.path.join(LOGS, "%s%s.log" % (h["name"], ".playback" if playback else ""))
         cmd = kani_cmd(h, tdir, playback=playback)
         timeout = h.get("timeout_s", 600) * (4 if playback else 1)
@@ -331,11 +345,16 @@ def run_replay_file(rpath, ctx):
     h = H.BY_NAME[hname]
     scratch = os.path.join(WORK, "replay-%s-%d" % (hname, os.getpid()))
     shutil.rmtree(scratch, ignore_errors=True)
-    shutil.copytree(HARNESS, scratch, ignore=shutil.ignore_patterns("target"))
+    shutil.copytree(HARNESS, scratch, ignore=shutil.ignore_patterns("target"))  # (already points at VERIF_REPO if set)
     try:
         src = os.path.join(scratch, "src", "proofs", h["file"])
         body = "\n".join(l for l in text.splitlines() if not l.startswith("// "))
-        tests = re.findall(r"(#\[test\]\nfn (\w+)\(\).*?\n\})", body, re.S)
+        tests_all = re.findall(r"(#\[test\]\nfn (\w+)\(\).*?\n\})", body, re.S)
+        seen, tests = set(), []
+        for t, name in tests_all:  # the same witness may be printed for several checks
+            if name not in seen:
+                seen.add(name)
+                tests.append((t, name))
         with open(src, "a") as f:
             f.write("\n#[cfg(test)]\nmod verif_playback {\n    use super::*;\n")
             for t, _ in tests:
@@ -350,7 +369,7 @@ def run_replay_file(rpath, ctx):
                 cmd += ["--release"]
             cmd += ["--", "verif_playback"]
             env = dict(ctx["env"])
-            env["CARGO_TARGET_DIR"] = os.path.join(WORK, "replay-target")
+            env["CARGO_TARGET_DIR"] = os.path.join(WORK, "replay-target" + ALT)
             p = sh(cmd, cwd=scratch, env=env, timeout=900)
             out = p.stdout + p.stderr
             failed = re.findall(r"^test (\S+) \.\.\. FAILED", out, re.M)
@@ -375,6 +394,7 @@ def main():
     a = ap.parse_args()
     seed = int(os.environ.get("VERIF_SEED", "0") or 0)
     os.makedirs(LOGS, exist_ok=True)
+    prepare_alt_harness()
     findings = load_findings()
     ctx = {
         "env": run_env(findings),
